@@ -265,7 +265,7 @@ theorem closePeer_adv (s : St) (k : Nat) : Adv s (s.closePeer k) := by adv_frame
 theorem handlePieceMessage_adv (m : M) (k i b l : Nat) (g : Bool) : Adv m.1 (handlePieceMessage m k i b l g).1 := by adv_frame
 theorem handlePeerMessage_adv (m : M) (k : Nat) (msg : Msg) : Adv m.1 (handlePeerMessage m k msg).1 := by adv_frame
 theorem processQueued_adv (m : M) : Adv m.1 (processQueued m).1 := by adv_frame
-theorem start_adv (m : M) : Adv m.1 (start m).1 := by adv_frame
+theorem startCore_adv (m : M) : Adv m.1 (startCore m).1 := by adv_frame
 theorem handleExtHandshake_adv (m : M) (k : Nat) (hm : Bool) (sz : Nat) (hp : Bool) :
     Adv m.1 (handleExtHandshake m k hm sz hp).1 := by adv_frame
 theorem handlePex_adv (m : M) (a d : Bool) : Adv m.1 (handlePex m a d).1 := by adv_frame
@@ -300,6 +300,18 @@ theorem handleStopped_bf (m : M) : (handleStopped m).1.bf = m.1.bf ∨ (handleSt
 
 theorem handleStopped_adv (m : M) : Adv m.1 (handleStopped m).1 :=
   Adv.of_eq (by simp) (by simp) (by simp) (handleStopped_bf m) (Or.inl (by simp))
+
+/-- `start` while stopping finishes the stop first (`handleStopped`, which may drop the bitfield of a
+pending verify); otherwise it is `startCore` or nothing. -/
+theorem start_bf (m : M) : (start m).1.bf = m.1.bf ∨ (start m).1.bf = none := by
+  rw [start_eq, startGo_bf]
+  unfold startPre
+  split
+  · simpa using handleStopped_bf (onSt m fun s => { s with stopHang := false })
+  · left; rfl
+
+theorem start_adv (m : M) : Adv m.1 (start m).1 :=
+  Adv.of_eq (by simp) (by simp) (by simp) (start_bf m) (Or.inl (by simp))
 
 theorem handleVerifyCommand_adv (m : M) : Adv m.1 (handleVerifyCommand m).1 := by
   unfold handleVerifyCommand
